@@ -89,8 +89,47 @@ def _read(rel):
     return ast.parse(open(os.path.join(REPO, rel)).read())
 
 
+def module_state(rel):
+    """Module-level mutable state / memoisation in a solver module: anything at module level other than imports, function and
+    class definitions and docstrings; caching decorators; `global` / `nonlocal`; attribute stores on functions; mutable
+    default arguments.  Returns a list of descriptions (empty = none)."""
+    tree = _read(rel)
+    base = os.path.basename(rel)
+    out = []
+    fnames = {n.name for n in tree.body if isinstance(n, (ast.FunctionDef, ast.ClassDef))}
+    for st in tree.body:
+        if isinstance(st, (ast.Import, ast.ImportFrom, ast.FunctionDef, ast.ClassDef)):
+            continue
+        if isinstance(st, ast.Expr) and isinstance(st.value, ast.Constant) and isinstance(st.value.value, str):
+            continue
+        out.append(f"{base}:{st.lineno}: module-level statement `{' '.join(ast.unparse(st).split())[:80]}`")
+    for n in ast.walk(tree):
+        if isinstance(n, (ast.FunctionDef, ast.ClassDef)):
+            for dec in n.decorator_list:
+                t = ast.unparse(dec)
+                if any(w in t for w in ("cache", "memo", "lru")):
+                    out.append(f"{base}:{n.lineno}: decorator `{t}` on {n.name}")
+        if isinstance(n, ast.FunctionDef):
+            for dv in list(n.args.defaults) + [x for x in n.args.kw_defaults if x is not None]:
+                if isinstance(dv, (ast.Dict, ast.List, ast.Set, ast.Call, ast.DictComp, ast.ListComp, ast.SetComp)):
+                    out.append(f"{base}:{n.lineno}: mutable default `{ast.unparse(dv)[:40]}` of {n.name}")
+        if isinstance(n, (ast.Global, ast.Nonlocal)) and isinstance(n, ast.Global):
+            out.append(f"{base}:{n.lineno}: `global {', '.join(n.names)}`")
+        if isinstance(n, (ast.Assign, ast.AugAssign, ast.AnnAssign)):
+            tgts = n.targets if isinstance(n, ast.Assign) else [n.target]
+            for tg in tgts:
+                if isinstance(tg, ast.Attribute) and isinstance(tg.value, ast.Name) and tg.value.id in fnames:
+                    out.append(f"{base}:{n.lineno}: attribute store `{ast.unparse(tg)}` on a module-level function/class")
+        if isinstance(n, ast.Call) and ast.unparse(n.func) in ("setattr",) and n.args and isinstance(n.args[0], ast.Name) and n.args[0].id in fnames:
+            out.append(f"{base}:{n.lineno}: setattr on {n.args[0].id}")
+    return out
+
+
 def extract():
     d = {}
+    d["module_state"] = []
+    for rel in ("linear_operator/utils/minres.py", "linear_operator/utils/contour_integral_quad.py", "linear_operator/functions/_sqrt_inv_matmul.py"):
+        d["module_state"] += module_state(rel)
     tree = _read("linear_operator/utils/minres.py")
     f = _func(tree, "minres")
     dm, d["params"] = _defaults(f)
@@ -244,6 +283,9 @@ def render(d):
     L.append(f"def shiftOffset : Rat := {lean_rat(d['shift_offset'])}")
     L.append("def params : List (String × String) := [" + ", ".join(f"({lean_str(a)}, {lean_str(b)})" for a, b in d["params"]) + "]")
     L.append("def ciqParams : List (String × String) := [" + ", ".join(f"({lean_str(a)}, {lean_str(b)})" for a, b in d["ciq_params"]) + "]")
+    L.append("/-- module-level mutable state / memoisation found in minres.py, contour_integral_quad.py, _sqrt_inv_matmul.py")
+    L.append("    (module-level non-definition statements, caching decorators, `global`, attribute stores on functions, mutable defaults) -/")
+    L.append(f"def moduleState : List String := {sl(d['module_state'])}")
     L.append("/-- the buffer-rotation block at the end of the loop body -/")
     L.append("def rotation : List TupleAssign := [" + ", ".join("{ lhs := " + sl(a) + ", rhs := " + sl(b) + " }" for a, b in d["rotation"]) + "]")
     L.append(f"def rotNames : List String := {sl(names)}")
